@@ -56,6 +56,105 @@ def splice_triggers_present(prog, chk, P2):
 
 
 
+def _tail_lookup_guarded(f):
+    """The iterator a chain walker obtains from find() is compared with end() and the function leaves (throw /
+    return) when they are equal.  Decided on what the test compares, not on how it is spelled: the end iterator
+    may be kept in a local initialised once from end() / cend(), the comparison may be held in a named boolean,
+    negated, written as `it == end` with the leaving branch first or as `it != end` with the leaving branch in
+    the else, or be one operand of a || / && chain that still implies `it != end` on the continuing path."""
+    from .. import rowmap
+
+    def inits(d):
+        return [x for x in children(d) if not x['kind'].endswith('Attr') and not x['kind'].endswith('Comment')]
+
+    def member_call(n, names):
+        n = strip(n, explicit=True)
+        while n.get('kind') in ('MaterializeTemporaryExpr', 'CXXBindTemporaryExpr', 'ExprWithCleanups',
+                                'CXXConstructExpr', 'ImplicitCastExpr') and len(children(n)) == 1:
+            n = strip(children(n)[0], explicit=True)
+        return n.get('kind') == 'CXXMemberCallExpr' and strip(children(n)[0]).get('name') in names
+
+    assigned = set()
+    for n in walk(f.body):
+        k = n.get('kind')
+        if k == 'BinaryOperator' and n.get('opcode') == '=':
+            assigned.add((strip(children(n)[0]).get('referencedDecl') or {}).get('id'))
+        elif k == 'CXXOperatorCallExpr' and len(children(n)) == 3 and \
+                (strip(children(n)[0]).get('referencedDecl') or {}).get('name') == 'operator=':
+            assigned.add((strip(children(n)[1]).get('referencedDecl') or {}).get('id'))
+    tail_ids, end_ids = set(), set()
+    for n in walk(f.body):
+        if n.get('kind') == 'VarDecl':
+            init = inits(n)
+            if not init:
+                continue
+            if any(x.get('kind') == 'CXXMemberCallExpr' and strip(children(x)[0]).get('name') == 'find'
+                   for x in walk(init[-1])):
+                tail_ids.add(n.get('id'))
+            elif member_call(init[-1], ('end', 'cend')) and n.get('id') not in assigned:
+                end_ids.add(n.get('id'))      # `const auto last = map.end();` - never re-assigned
+    flags = rowmap._bool_locals(f)
+
+    def ref_id(n):
+        n = strip(n, explicit=True)
+        while n.get('kind') in ('MaterializeTemporaryExpr', 'CXXBindTemporaryExpr', 'ExprWithCleanups',
+                                'CXXConstructExpr', 'ImplicitCastExpr') and len(children(n)) == 1:
+            n = strip(children(n)[0], explicit=True)
+        return (n.get('referencedDecl') or {}).get('id') if n.get('kind') == 'DeclRefExpr' else None
+
+    def is_end(n):
+        return member_call(n, ('end', 'cend')) or ref_id(n) in end_ids
+
+    def not_end_when(cond, truth, depth=0):
+        """cond evaluating to `truth` implies tail != end."""
+        n = strip(cond, explicit=True)
+        k = n.get('kind')
+        c = children(n)
+        if depth > 6:
+            return False
+        if k == 'UnaryOperator' and n.get('opcode') == '!':
+            return not_end_when(c[0], not truth, depth + 1)
+        if k == 'DeclRefExpr':
+            init = flags.get((n.get('referencedDecl') or {}).get('id'))
+            return init is not None and not_end_when(init, truth, depth + 1)
+        op, a, b = None, None, None
+        if k == 'BinaryOperator':
+            op, a, b = n.get('opcode'), c[0], c[1]
+        elif k == 'CXXOperatorCallExpr' and len(c) == 3:
+            op = ((strip(c[0]).get('referencedDecl') or {}).get('name') or '').replace('operator', '')
+            a, b = c[1], c[2]
+        elif k == 'CXXOperatorCallExpr' and len(c) == 2 and \
+                (strip(c[0]).get('referencedDecl') or {}).get('name') == 'operator!':
+            return not_end_when(c[1], not truth, depth + 1)
+        elif len(c) == 1:
+            return not_end_when(c[0], truth, depth + 1)
+        if op in ('==', '!='):
+            if (ref_id(a) in tail_ids and is_end(b)) or (ref_id(b) in tail_ids and is_end(a)):
+                return (op == '!=') == truth
+            return False
+        if (op == '&&' and truth) or (op == '||' and not truth):
+            return not_end_when(a, truth, depth + 1) or not_end_when(b, truth, depth + 1)
+        return False
+
+    def leaves_(n):
+        return any(x.get('kind') in ('CXXThrowExpr', 'ReturnStmt') for x in walk(n))
+    for n in walk(f.body):
+        if n.get('kind') != 'IfStmt':
+            continue
+        c = children(n)
+        has_else = n.get('hasElse')
+        pre = c[:-2] if has_else else c[:-1]
+        conds = [p for p in pre if p.get('kind') != 'DeclStmt']
+        if not conds:
+            continue
+        then, els = (c[-2], c[-1]) if has_else else (c[-1], None)
+        if not_end_when(conds[-1], False) and leaves_(then):
+            return True
+        if els is not None and not_end_when(conds[-1], True) and leaves_(els):
+            return True
+    return False
+
+
 def run(tier='quick'):
     prog = program.load()
     cg = callgraph.get(prog)
@@ -86,13 +185,18 @@ def run(tier='quick'):
     from .. import domains
     domains.apply_rule(prog, eff, chk, P2, gens=(2,), trigger_tables=('playlist', 'playlistentity'), library=False)
     # ---- P3 ------------------------------------------------------------------------------
-    walkers = [(V2 + '(anon)::sort_ids', 'PLAYLIST_NO_NEXT_LIST_ID'),
-               (V2 + 'playlist_entity_table::get_for_list', 'PLAYLIST_ENTITY_NO_NEXT_ENTITY_ID')]
-    for qn, sentinel in walkers:
-        fs = [f for f in prog.by_name(qn) if f.body is not None and not f.is_pattern]
-        if not fs:
-            raise AnalysisBroken('anchor function %s not found' % qn)
-        f = fs[0]
+    # the walkers: whatever function walks the sibling chain for root_ids() / child_ids() (a file-local helper of
+    # any name, or the listing functions themselves), and the walker of the entry chain
+    walkers = [(f_, 'PLAYLIST_NO_NEXT_LIST_ID') for f_ in c07.chain_walkers(
+        prog, cg, (V2 + 'playlist_table::root_ids', V2 + 'playlist_table::child_ids'))]
+    if not walkers:
+        raise AnalysisBroken('no function walks the sibling chain for playlist_table::root_ids / child_ids')
+    ew = c07.chain_walkers(prog, cg, (V2 + 'playlist_entity_table::get_for_list',))
+    if not ew:
+        raise AnalysisBroken('no function walks the entry chain for playlist_entity_table::get_for_list')
+    walkers += [(f_, 'PLAYLIST_ENTITY_NO_NEXT_ENTITY_ID') for f_ in ew]
+    for f, sentinel in walkers:
+        qn = f.qualname
         chk.analysed(f)
         sval = c07._const(prog, sentinel)
         finds = []
@@ -107,22 +211,7 @@ def run(tier='quick'):
         else:
             chk.violation(P3, '%s|start sentinel' % _short(qn), locstr(f.node), inst + ': no lookup of the sentinel found')
         # the tail lookup is tested before use by something that leaves (throw / return), not an assert
-        guarded = False
-        tail_vars = set()
-        for n in walk(f.body):
-            if n.get('kind') == 'VarDecl':
-                init = [x for x in children(n) if not x['kind'].endswith('Attr') and not x['kind'].endswith('Comment')]
-                if init and any(x.get('kind') == 'CXXMemberCallExpr' and strip(children(x)[0]).get('name') == 'find'
-                                for x in walk(init[-1])):
-                    tail_vars.add(n.get('name'))
-        for n in walk(f.body):
-            if n.get('kind') == 'IfStmt':
-                c = children(n)
-                cond_refs = [strip(children(x)[0]).get('name') for x in walk(c[0]) if x.get('kind') == 'CXXMemberCallExpr']
-                leaves_ = any(x.get('kind') in ('CXXThrowExpr', 'ReturnStmt') for x in walk(c[1]))
-                names = [(x.get('referencedDecl') or {}).get('name') for x in walk(c[0]) if x.get('kind') == 'DeclRefExpr']
-                if 'end' in cond_refs and (tail_vars & set(names)) and leaves_:
-                    guarded = True
+        guarded = _tail_lookup_guarded(f)
         inst = '%s tests the tail lookup against end() before dereferencing it' % _short(qn)
         if guarded:
             chk.ok(P3, inst, locstr(f.node))
@@ -164,11 +253,9 @@ def run(tier='quick'):
             continue
         # the walker: this function or the repository function the map is handed to
         walker = f
-        for e in cg.edges(f):
-            for t in e.targets:
-                if t.body is not None and any(x.get('kind') in ('DoStmt', 'WhileStmt') for x in walk(t.body)) and \
-                        t.cls is None and 'map' in (t.type or ''):
-                    walker = t
+        for t in c07.chain_walkers(prog, cg, (qn,)):
+            if t is not f:
+                walker = t
         ins = set()
         for x in walk(walker.body):
             if x.get('kind') in ('DoStmt', 'WhileStmt', 'ForStmt'):
